@@ -224,7 +224,9 @@ def unit_sections_counts(twin=False):
               "Get_pure_phases": (PRINT, "Phreeqc::punch_pp_assemblage"), "Get_si": (PRINT, "Phreeqc::punch_saturation_indices"), "Get_gases": (PRINT, "Phreeqc::punch_gas_phase"),
               "Get_kinetics": (PRINT, "Phreeqc::punch_kinetics"), "Get_s_s": (PRINT, "Phreeqc::punch_ss_assemblage"), "Get_isotopes": (ISOT, "Phreeqc::punch_isotopes"),
               "Get_calculate_values": (ISOT, "Phreeqc::punch_calculate_values")}
+    names = []
     def counts(rel, q, G, callee):
+        del names[:]
         f = A.find_function(rel, q)
         loops = [x for x in A.walk(f) if x.get("kind") == "ForStmt"]
         ks = [k for k, lp in enumerate(loops) if lp["inner"][2] is not None and (G + "().size()") in text_of(rel, lp["inner"][2]) and (callee + "(") in text_of(rel, lp["inner"][-1])]
@@ -239,7 +241,11 @@ def unit_sections_counts(twin=False):
                 if s.status not in ("run", "cont"):
                     continue
                 n += 1
-                out.add(sum(1 for e in U.iter_events(s) if e.name.split("::")[-1] == callee))
+                evs_ = list(U.iter_events(s))
+                out.add(sum(1 for e in evs_ if e.name.split("::")[-1] == callee))
+                if callee == "fpunchf":
+                    fmts = {id(e.result): repr(e.args[0]) for e in evs_ if e.name.split("::")[-1] == "sformatf" and e.args}
+                    names.append(tuple(fmts.get(id(e.args[0]), repr(e.args[0])[:40]) for e in evs_ if e.name.split("::")[-1] == "fpunchf"))
         return (out if n else None), "%d loops, %d paths" % (len(ks), n)
     done = 0
     for G in getters:
@@ -258,6 +264,11 @@ def unit_sections_counts(twin=False):
         same = len(hs) == 1 and hs == cs
         if twin and sec == "si":
             same = False
+        cellnames = list(names)
+        distinct = all(len(set(t)) == len(t) for t in cellnames)
+        samelist = len(set(cellnames)) <= 1
+        r.add("section[%s].cells_of_one_item_go_to_different_columns" % sec, DISCHARGED if distinct else FAILED, "trace", 0, repr(sorted(set(cellnames)))[:200])
+        r.add("section[%s].same_column_names_on_every_path(high_precision_or_not)" % sec, DISCHARGED if samelist else FAILED, "trace", 0, repr(sorted(set(cellnames)))[:200])
         r.add("section[%s].headings_per_item==cells_per_item" % sec, DISCHARGED if same else FAILED, "trace", 0, "%s headings, %s cells" % (sorted(hs), sorted(cs)))
     r.add("reach.sections", DISCHARGED if done >= 8 else UNDECIDED, "symex", 0, str(done), kind="vacuity")
     r.assumptions += ["-solid_solutions is not decided here: punch_ss_assemblage emits its cell inside a nested search (found / not found), which needs a loop invariant this unit does not state", "the block headings written outside the item loops (e.g. pressure / total mol / volume of -gases) are paired by C05.punch_all.cells_follow_heading_order"]
